@@ -723,15 +723,21 @@ def run_property(pid, tier, jobs, level, trusted_base, assumptions, explanation,
             violations.append((j, o, r))
     # replay
     vlines = []
+    replay_cache = {}   # one native replay per generator and run (jobs of one family share a scenario-based replay)
     for j, o, r in violations:
         rp = os.path.join(VERIF, "replay", "%s_%s_%s.json" % (pid, j.name, re.sub(r'[^A-Za-z0-9_.]', '_', o["name"])))
         inputs = trace_inputs(o.get("trace"), j.enforce)
         reproduced, text = False, "no replay generator for this job"
         if j.replay:
-            try:
-                reproduced, text = j.replay(j, o, inputs, os.path.join(pdir, j.name, "replay"))
-            except Exception as e:
-                reproduced, text = False, "replay generator raised %r" % e
+            key = (j.replay, None if getattr(j.replay, "shared", True) is True and not getattr(j.replay, "per_trace", False) else (j.name, o["name"]))
+            if key in replay_cache:
+                reproduced, text = replay_cache[key]
+            else:
+                try:
+                    reproduced, text = j.replay(j, o, inputs, os.path.join(pdir, j.name, "replay"))
+                except Exception as e:
+                    reproduced, text = False, "replay generator raised %r" % e
+                replay_cache[key] = (reproduced, text)
         with open(rp, "w") as f:
             json.dump({"property": pid, "job": j.name, "obligation": o["name"], "description": o["desc"],
                        "location": o["loc"], "class": o["class"], "verifier": "cbmc 6.11.0", "domain": j.domain,
